@@ -33,7 +33,8 @@ def run_task(task):
         spec = m.FUNCS[task['fn']]
         sc = spec['scenarios'][task['scenario']]
         cfg = dict(spec.get('config') or {})
-        rep = driver.verify(task['pyfile'], task['fn'], m.L,
+        rep = driver.verify(task['pyfile'], spec.get('function', task['fn']),
+                            m.L,
                             spec['setup'](sc), spec['on_outcomes'],
                             config=cfg, scenario=task['scenario'],
                             timeout_ms=task.get('timeout_ms', 10000))
